@@ -51,6 +51,11 @@ THEOREMS = [
     "JanetModel.Props.C11.jdn_roundtrip_symbol",
     "JanetModel.Props.C11.jdn_roundtrip_const",
     "JanetModel.Props.C11.jdn_roundtrip_number",
+    "JanetModel.Props.C11.jdn_roundtrip",
+    "JanetModel.Props.C11.jdn_roundtrip_chunked",
+    "JanetModel.Props.C11.jdn_roundtrip_nested",
+    "JanetModel.Props.C11.eatP_is_consume",
+    "JanetModel.Props.C11.keq_ignores_source_maps",
 ]
 ENV = dict(os.environ, ASAN_OPTIONS="detect_leaks=0:abort_on_error=0", UBSAN_OPTIONS="print_stacktrace=1")
 BAD_MARKS = ("PANIC", "SECOND-ERROR", "BADCOUNT", "SHORT", "NOTNIL", "BADWRAP", "NOT-A-STRING", "BADOP", "bad-op")
